@@ -64,12 +64,144 @@ def menu(b, part="all"):
         st += [["set", "line", 0, "in_service", False], ["set", "bus", 3, "in_service", False]]
     elif b == "T3":
         st += [["set", "switch", 0, "closed", False], ["set", "trafo", 0, "shift_degree", 150.], ["set", "trafo", 0, "tap_pos", 2]]
-    if part == "core":
-        return w[:2] + eg[:2] + eg[3:4] + gen[:3] + gen[6:7] + gen[8:9] + xw[1:4] + nb[:3]
+    if part == "participants":
+        return w + eg + gen + xw + nb[:3]
     return w + eg + gen + xw + nb + st
 
 
 # ----------------------------------------------------------------------------------------------
+# Exact predicates for the two recorded defects of the xward distributed-slack RESULT path (known_findings.d/C10.json).
+# Both read the demand column of the internal bus matrix the run left behind (net._ppc["bus"][:, PD]) - the only place
+# where the solved share of an xward bus exists - and are used for attribution only, never for a verdict.
+def _xward_fixed(net, i):
+    x = net.xward.loc[i]
+    if not x.in_service or not a_net.energized(net, int(x.bus)):
+        return 0.
+    v = net.res_bus.at[int(x.bus), "vm_pu"]
+    return x.ps_mw + x.pz_mw * v * v + a_net.xward_internal_p(net, i)
+
+
+def _emulate_defective_extraction(net, PD, lookup):
+    """what results_bus._extract_dist_slack_pq_results adds to res_xward.p_mw on the unchanged tree: unscaled, unsigned
+    element powers, only elements of the same pandapower bus, one pass per xward ROW, added to the WHOLE column"""
+    add = np.zeros(len(net.xward))
+    for b in net.xward.bus.values:
+        connected = {}
+        for e in ("sgen", "load", "ward", "xward", "storage"):
+            conn = net[e].loc[net[e].in_service & (net[e].bus == b)].index.values
+            if len(conn):
+                connected[e] = conn
+        p_bus = float(PD[lookup[b]])
+        total = 0
+        for e, idx in connected.items():
+            if "slack_weight" in net[e].columns:
+                w = net[e].loc[idx, "slack_weight"].values
+                if np.abs(w).sum() != 0:
+                    total = total + np.abs(w)
+            p_bus -= net[e].loc[idx, "ps_mw" if e in ("ward", "xward") else "p_mw"].values.sum()
+        for e, idx in connected.items():
+            if "slack_weight" in net[e].columns:
+                w = net[e].loc[idx, "slack_weight"].values
+                if np.abs(w).sum() != 0:
+                    add = add + p_bus * w / total
+    return add
+
+
+def _correct_extraction(net, PD, lookup, w, live):
+    """share of each xward: (demand column of its internal bus - constant-power demand of everything on that internal
+    bus), split by weight among the participating xwards of the bus"""
+    xw = net.xward
+    xb = lookup[xw.bus.values]
+    add = np.zeros(len(xw))
+    for b in np.unique(xb[w != 0]):
+        p = float(PD[b])
+        for e, sign, col in (("load", 1, "p_mw"), ("sgen", -1, "p_mw"), ("storage", 1, "p_mw"), ("motor", 1, "p_mw"),
+                             ("asymmetric_load", 1, "p_mw"), ("asymmetric_sgen", -1, "p_mw")):
+            if len(net[e]):
+                m = lookup[net[e].bus.values] == b
+                p -= sign * float(np.nansum(net["res_" + e][col].values[m]))
+        if len(net.ward):
+            m = (lookup[net.ward.bus.values] == b) & net.ward.in_service.values
+            p -= float(net.ward.ps_mw.values[m].sum())
+        m = xb == b
+        p -= float(xw.ps_mw.values[m & live].sum())
+        add[m] += p * w[m] / w[m].sum()
+    return add
+
+
+def _effective_weights(net, lookup, w, live):
+    """build_gen._get_xward_pq_buses returns the xward buses SORTED (np.setdiff1d) while the weights stay in table order:
+    the weight of the k-th in-service xward lands on the k-th smallest xward bus.  -> weight per xward row as solved."""
+    xb = lookup[net.xward.bus.values]
+    sb = np.unique(xb[live])
+    if len(sb) != int(live.sum()):
+        return None                    # duplicates: the unchanged tree raises IndexError
+    bus_w = dict(zip(sb.tolist(), w[live].tolist()))
+    return np.array([bus_w.get(int(b), 0.) if l else 0. for b, l in zip(xb, live)])
+
+
+def _explain_xward(net, opts, part, acc):
+    """-> (defect name | None).  A violation that involves an xward is attributed to a recorded defect only if the reported
+    res_xward.p_mw is reproduced exactly by the defect AND the corrected values satisfy every clause of the property."""
+    xw = net.xward
+    if not len(xw) or not (xw.slack_weight[xw.in_service] != 0).any():
+        return None
+    live = np.array([bool(xw.in_service.at[i]) and a_net.energized(net, int(xw.bus.at[i])) for i in xw.index])
+    w_true = xw.slack_weight.values * live
+    try:
+        PD = net._ppc["bus"][:, 2]
+        lookup = net._pd2ppc_lookups["bus"]
+        fixed = np.array([_xward_fixed(net, i) for i in xw.index])
+        rep_add = net.res_xward.p_mw.values - fixed
+        buggy = _emulate_defective_extraction(net, PD, lookup)
+        w_eff = _effective_weights(net, lookup, w_true, live)
+    except Exception:
+        return None
+    node = balance.fused_nodes(net)
+    others = [t[3] / t[2] for t in part if t[0] != "xward"]
+
+    def satisfied(w, corrected):
+        # corrected values must satisfy the property: equal deviation per weight, silent non-participants, balanced nodes
+        lam = others + [-corrected[k] / w[k] for k in range(len(xw)) if w[k]]
+        if lam and max(lam) - min(lam) > TOL + 1e-7 * max(1., max(abs(x) for x in lam)):
+            return False
+        if np.abs(corrected[w == 0]).max(initial=0.) > 1e-8:
+            return False
+        for n, a in acc.items():
+            m = np.array([node[int(b)] == n for b in xw.bus.values])
+            if m.any():
+                mis = (a["elem"] + a["branch"]).real - float((rep_add[m] - corrected[m]).sum())
+                if abs(mis) > TOL + 1e-7 * max(1., abs(a["elem"])):
+                    return False
+        return True
+
+    hyp = [("xward_share_extraction", w_true)]
+    if w_eff is not None and not np.allclose(w_eff, w_true):
+        hyp.append(("xward_weight_order", w_eff))
+    if np.allclose(rep_add, buggy, atol=1e-8, rtol=0):
+        for name, w in hyp:
+            correct = _correct_extraction(net, PD, lookup, w, live)
+            if (name == "xward_weight_order" or not np.allclose(buggy, correct, atol=1e-7, rtol=0)) and satisfied(w, correct):
+                return name
+    if opts.get("enforce_q_lims") and np.allclose(rep_add, 0., atol=1e-8, rtol=0) and others:
+        lim = False
+        for i in net.gen.index[net.gen.in_service]:
+            q = net.res_gen.at[i, "q_mvar"]
+            lim |= abs(q - net.gen.at[i, "max_q_mvar"]) <= 1e-6 or abs(q - net.gen.at[i, "min_q_mvar"]) <= 1e-6
+        if lim:
+            # the q-limit loop restored the demand column: the shares are gone from the results; recover them from the
+            # nodal mismatch of the xward nodes (split by weight); `satisfied` cross-checks with the other participants
+            for name, w in hyp[:1]:
+                corrected = np.zeros(len(xw))
+                for n in {node[int(b)] for b, ww in zip(xw.bus.values, w) if ww}:
+                    m = np.array([node[int(b)] == n for b in xw.bus.values]) & (w != 0)
+                    mis = (acc[n]["elem"] + acc[n]["branch"]).real
+                    corrected[m] = -mis * w[m] / w[m].sum()
+                if satisfied(w, corrected):
+                    return "qlim_restore_drops_xward_share"
+    return None
+
+
 def judge(net, on, opts, cnt):
     vs = []
     toks0 = ["opt=" + on]
@@ -148,6 +280,13 @@ def judge(net, on, opts, cnt):
                 toks += ["n_xward=%d" % int(net.xward.in_service.sum())]
             viol("nodal_balance", {"node_buses": sorted(a["buses"]), "mismatch": [mis.real, mis.imag], "kinds": sorted(a["kinds"])},
                  toks, klass="/".join(sorted(a["kinds"])))
+    xv = [v for v in vs if any(t in ("tab=xward", "part=xward", "kind=xward") or t.startswith("n_xward=") for t in v["tokens"])
+          or (v["clause"] == "nodal_balance" and len(net.xward) and set(v["detail"].get("node_buses", ())) & set(int(b) for b in net.xward.bus.values))]
+    if xv:
+        name = _explain_xward(net, opts, part, acc)
+        if name:
+            for v in xv:
+                v["tokens"].append("explained=" + name)
     return vs, part
 
 
@@ -184,9 +323,9 @@ def gen_cases(tier):
         for devs in na.subsets(menu(b), 2):
             cases.append({"base": b, "devs": [list(d) for d in devs], "optsets": OPTSETS})
         if tier == "thorough":
-            for devs in na.subsets(menu(b, "core"), 3):
+            for devs in na.subsets(menu(b, "participants"), 3):
                 if len(devs) == 3:
-                    cases.append({"base": b, "devs": [list(d) for d in devs], "optsets": ["ds", "ds_nonumba", "ds_nols"]})
+                    cases.append({"base": b, "devs": [list(d) for d in devs], "optsets": ["ds", "ds_nonumba", "ds_qlim"]})
     return cases
 
 
@@ -195,7 +334,7 @@ def explore(tier, seed):
     core.warm(pf=True)
     cases = gen_cases(tier)
     rep.rule = ("E1: every subset of <=2 pairwise-compatible deviations from the participant/neighbour menu of bases %s (thorough: "
-                "additionally every 3-subset of the core participant sub-menu), each under option sets %s; a case counts as "
+                "additionally every 3-subset of the participant sub-menu: weights, ext_grids, generators, xwards + 3 neighbours), each under option sets %s; a case counts as "
                 "distinct+non-trivial when the distributed-slack power flow converged with at least two participants of positive "
                 "weight, keyed by (base, option set, deviation-set hash, participant kinds and weights)" % (BASES, OPTSETS))
     rep.extra["bound_k"] = 2 if tier == "quick" else 3
